@@ -44,7 +44,7 @@ def generate(rng, tier):
     muts = rng.sample(pool, min(len(pool), 500 if thorough else 70))
     for s in muts:
         for tag, data in R.mutations(rng, s, pool, "dense" if thorough and len(s.data) < 300 else "light"):
-            cases.append(R.make_case(data, "01234", FLAVOUR, ORACLES, (tag, "mut:" + s.cls)))
+            cases.append(R.make_case(data, "01234", FLAVOUR, ORACLES, (tag, "mut:" + s.cls), base=s.data))
     return cases
 
 
